@@ -16,6 +16,9 @@ pub struct SharedSpec {
     /// false: the flat expression is created with `parse_wo_compile` (no constant folding)
     #[serde(default = "yes")]
     pub compile: bool,
+    /// deeply nested small expression (see gen_tower)
+    #[serde(default)]
+    pub tower: bool,
 }
 fn yes() -> bool {
     true
@@ -107,11 +110,22 @@ const L_VAL: Lang = Lang {
         "+", "-", "*", "/", "%", " == ", " != ", " < ", " >= ", " && ", " || ", " if ", " else ",
         "^", "+", "*",
     ],
-    call: &["min", "max"],
+    call: &["min", "max", "dot"],
     unary: &["-", "abs", "to_float", "to_int", "!", "fact", "sin", "length", "signum"],
     consts: &["PI", "E"],
     vars: &["x", "y", "z", "{v w}", "k", "m"],
-    lits: &["1", "2", "3.5", "true", "false", "[1,2,3]", "[0.5, 2]", "0", "7", "2.0"],
+    // "fact(2.5)" and "to_int([1,2])" fold to the constant `Val::Error(ExError{..})`: an owned error
+    // message inside a shared expression that every evaluation clones and drops
+    lits: &["1", "2", "3.5", "true", "false", "[1,2,3]", "[0.5, 2]", "0", "7", "2.0", "fact(2.5)", "to_int([1,2])", "13", "15", "20", "fact(14)"],
+};
+/// array-centred texts of the value type: every variable is meant to be bound to an array
+const L_VAL_ARR: Lang = Lang {
+    bin: &["+", "-", "*", "+", " else ", " dot ", " dot ", " min "],
+    call: &["dot", "min"],
+    unary: &["length", "-", "abs"],
+    consts: &[],
+    vars: &["a", "b", "c"],
+    lits: &["[1,2,3]", "a", "b"],
 };
 const L_BOOL: Lang = Lang {
     bin: &[" && ", " || ", " == ", " xor "],
@@ -150,7 +164,7 @@ const L_F64B: Lang = Lang {
 fn lang(kind: Kind) -> &'static Lang {
     match kind {
         Kind::F64 | Kind::F32 => &L_F,
-        Kind::Val => &L_VAL,
+        Kind::Val | Kind::Val64 => &L_VAL,
         Kind::Bool => &L_BOOL,
         Kind::Sim | Kind::Sim2 => &L_SIM,
         Kind::Sim3 => &L_SIM3,
@@ -243,9 +257,43 @@ fn gen_into(r: &mut Rng, l: &Lang, n: usize, depth: usize, out: &mut String) {
     }
 }
 
+/// A deeply nested but small expression: `((((x+1)*y)-2)/z)...` or `sin(cos(sin(...)))` wrapped
+/// around a chain. Nesting depth = n_operands - 1; cheap to evaluate, convert and differentiate,
+/// but every recursive walk over it (deep form, partial, unparse, flatten) goes `depth` levels down.
+pub fn gen_tower(r: &mut Rng, kind: Kind, n_operands: usize) -> String {
+    let l = lang(kind);
+    let mut s = String::new();
+    atom(r, l, &mut s);
+    for _ in 1..n_operands.max(2) {
+        let mut t = String::new();
+        let wrap_unary = r.chance(1, 4);
+        if wrap_unary {
+            t.push_str(*r.pick(l.unary));
+        }
+        t.push('(');
+        if r.chance(1, 2) {
+            t.push_str(&s);
+            t.push_str(*r.pick(l.bin));
+            atom(r, l, &mut t);
+        } else {
+            atom(r, l, &mut t);
+            t.push_str(*r.pick(l.bin));
+            t.push_str(&s);
+        }
+        t.push(')');
+        s = t;
+    }
+    s
+}
+
 pub fn gen_text(r: &mut Rng, kind: Kind, n_operands: usize) -> String {
     let mut s = String::new();
-    gen_into(r, lang(kind), n_operands.max(1), 0, &mut s);
+    let l = if matches!(kind, Kind::Val | Kind::Val64) && n_operands <= 12 && r.chance(1, 4) {
+        &L_VAL_ARR
+    } else {
+        lang(kind)
+    };
+    gen_into(r, l, n_operands.max(1), 0, &mut s);
     s
 }
 
@@ -293,7 +341,8 @@ fn pick_kind(r: &mut Rng) -> Kind {
         30..=44 => Kind::Sim,
         45..=54 => Kind::Sim2,
         55..=62 => Kind::Sim3,
-        63..=76 => Kind::Val,
+        63..=71 => Kind::Val,
+        72..=76 => Kind::Val64,
         77..=85 => Kind::F32,
         _ => Kind::Bool,
     }
@@ -345,10 +394,16 @@ pub fn gen_workload(seed: u64, cfg: GenCfg) -> Workload {
             kind = [Kind::Sim, Kind::Sim, Kind::Sim2, Kind::Sim3][r.below(4)]; // panic faults need user-code seams
         }
         let form = if r.chance(65, 100) { Form::Flat } else { Form::Deep };
-        let n_operands = pick_size(&mut r).min(cfg.max_operands);
-        let text = gen_text(&mut r, kind, n_operands);
+        let tower = r.chance(1, 8);
+        let (n_operands, text) = if tower {
+            let n = [12usize, 24, 40, 70, 100][r.below(5)].min(cfg.max_operands.max(2));
+            (n, gen_tower(&mut r, kind, n))
+        } else {
+            let n = pick_size(&mut r).min(cfg.max_operands);
+            (n, gen_text(&mut r, kind, n))
+        };
         let compile = !r.chance(1, 5);
-        shared.push(SharedSpec { kind, form, text, n_operands, compile });
+        shared.push(SharedSpec { kind, form, text, n_operands, compile, tower });
     }
     let mut threads = Vec::new();
     for _ in 0..n_threads {
@@ -356,7 +411,7 @@ pub fn gen_workload(seed: u64, cfg: GenCfg) -> Workload {
         let mut ops = Vec::new();
         for _ in 0..n_ops {
             let j = r.below(n_shared);
-            let small = shared[j].n_operands <= 40;
+            let small = shared[j].n_operands <= 40 || (shared[j].tower && r.chance(1, 4));
             let roll = r.below(w_eval + w_parse + w_other);
             let op = if roll < w_eval {
                 Op::Eval {
@@ -448,15 +503,16 @@ pub fn gen_workload(seed: u64, cfg: GenCfg) -> Workload {
 // first-use workloads (run as the first simulated run of a fresh process)
 // ---------------------------------------------------------------------------------------------
 
-const FIRST_TEXTS: [(Kind, &[&str]); 8] = [
+const FIRST_TEXTS: [(Kind, &[&str]); 9] = [
     (Kind::F64, &["sin(x)+{y z}*2-cosy", "1+2*3", "PI*x^2"]),
     (Kind::F64b, &["dbl(x)<=2**3*pad05(y)", "x**2<y"]),
     (Kind::F32, &["cos(y)-3/z", "sqrt(2)*x"]),
-    (Kind::Val, &["1 if x>0 else [1,2]", "to_float(k)+2.5", "x<=y&&true"]),
+    (Kind::Val, &["1 if x>0 else [1,2]", "to_float(k)+2.5+fact(15)", "x<=y&&true"]),
     (Kind::Bool, &["!p&&true||q", "p==q"]),
     (Kind::Sim, &["sq(x)**2<=3*TEN-incy", "x*y**2<=7"]),
     (Kind::Sim2, &["sq(x)**2<=3*TEN-incy", "x*y**2<=7"]),
     (Kind::Sim3, &["tw(x)&&1<<2|negy", "x<<2<y&&ONE"]),
+    (Kind::Val64, &["fact(15)+x", "to_float(k)+2.5", "fact(x)<=y"]),
 ];
 
 /// No shared expressions: 2-4 threads whose first operations parse the same small texts, one per
@@ -465,15 +521,15 @@ const FIRST_TEXTS: [(Kind, &[&str]); 8] = [
 pub fn gen_firstuse_workload(seed: u64) -> Workload {
     let mut r = Rng::new(seed);
     let n_threads = r.range(2, 4);
-    let rot = r.below(8);
+    let rot = r.below(9);
     let per_thread_rot = r.chance(3, 10);
-    let n_kinds = r.range(3, 8);
+    let n_kinds = r.range(3, 9);
     let variant = r.below(3);
     let mut threads = Vec::new();
     for t in 0..n_threads {
         let mut ops = Vec::new();
         for i in 0..n_kinds {
-            let idx = (rot + i + if per_thread_rot { t * 3 } else { 0 }) % 8;
+            let idx = (rot + i + if per_thread_rot { t * 3 } else { 0 }) % 9;
             let (kind, texts) = FIRST_TEXTS[idx];
             let text = texts[variant % texts.len()].to_string();
             let form = if (i + rot) % 3 == 0 { Form::Deep } else { Form::Flat };
